@@ -2,7 +2,7 @@
 from vlib import *
 import exactsim
 import numpy as np
-from props.c26 import expected, arr
+from props.c26 import expected, arr, PAULI
 
 PID = "C27"
 META = {
@@ -14,6 +14,26 @@ META = {
     "note": "Trusted: Coq kernel + stdlib real axioms; translator (gate matrices converted to exact constants); exact post-processing of the reference state with numpy; quimb/stim internals are oracles; default.tensor does not support probs (expval/var only); circuits of <= 4 wires quick, more in thorough. Two default.clifford defects found here (SX/Adjoint(SX) gate names, probabilities on wire subsets) were repaired in /repo by fix: commits.",
     "assumptions": [], "trusted": ["harness/exactsim.py post-processing", "translator harness/qx.py"],
 }
+
+
+def apply_word(state, n, word, idxs):
+    """P|psi> for the Pauli word with letter word[k] on register axis idxs[k] (axis 0 most significant)"""
+    psi = state.reshape([2] * n)
+    for ch, ax in zip(word, idxs):
+        psi = np.moveaxis(np.tensordot(PAULI[ch], psi, axes=([1], [ax])), 0, ax)
+    return psi.reshape(-1)
+
+
+def expected27(state, n, dev_wires, m):
+    """exact value of a measurement; Sum / LinearCombination observables sum_i c_i P_i by linearity from the exact state:
+    <H> = sum_i c_i <P_i>,  Var(H) = ||H psi||^2 - <H>^2"""
+    if m["kind"] not in ("expval_sum", "var_sum"):
+        return expected(state, n, dev_wires, m)
+    hpsi = np.zeros_like(state, dtype=complex)
+    for t in m["terms"]:
+        hpsi = hpsi + t["coeff"] * apply_word(state, n, t["word"], [dev_wires.index(w) for w in t["wires"]])
+    e = float(np.real(np.vdot(state, hpsi)))
+    return e if m["kind"] == "expval_sum" else float(np.real(np.vdot(hpsi, hpsi))) - e * e
 
 
 def run(ctx):
@@ -31,7 +51,7 @@ def run(ctx):
                               what="null.qubit returns results of a different shape than default.qubit")
             continue
         for m, res in zip(r["meas"], r["results"]):
-            got, exp = arr(res), expected(st, r["n"], r["dev_wires"], m)
+            got, exp = arr(res), expected27(st, r["n"], r["dev_wires"], m)
             err = float(np.abs(np.asarray(got).reshape(-1) - np.asarray(exp).reshape(-1)).max()) if np.asarray(got).size == np.asarray(exp).size else 9.9
             if err > 1e-9:
                 ctx.violation(f"device:{r['device']}:" + json.dumps([r["ops"], m])[:300], {"device": r["device"], "ops": r["ops"], "wires": r["dev_wires"], "measurement": m,
